@@ -24,6 +24,7 @@ package syntax
 // zz_verif_c17.go — same file-scoped environment is declared here again.)
 
 import (
+	"bytes"
 	"encoding/json"
 	"strings"
 )
@@ -484,6 +485,11 @@ var c07Literals = []struct {
 	{`{a: 1}`, func(d c07T) bool { return false }},
 	{`{a: 1, s: "x", extra: 2}`, func(d c07T) bool { return false }},
 	{`{a: "x", s: "x"}`, func(d c07T) bool { return false }},
+	// a float literal with an integral value is accepted for an int parameter
+	{"2.0", func(d c07T) bool { return d.arrDim == 0 && d.mapDim == 0 && (d.base == "int" || d.base == "float") }},
+	{"1234567.0", func(d c07T) bool { return d.arrDim == 0 && d.mapDim == 0 && (d.base == "int" || d.base == "float") }},
+	{"[1234567.0, 3]", func(d c07T) bool { return d.arrDim == 1 && d.mapDim == 0 && (d.base == "int" || d.base == "float") }},
+	{"2.5e7", func(d c07T) bool { return d.arrDim == 0 && d.mapDim == 0 && (d.base == "int" || d.base == "float") }},
 }
 
 // H_C07_literal(l, d): x = <literal>.
@@ -505,7 +511,38 @@ pipeline TOP(
 
 call TOP()
 `
-	c07Verdict(text, lit.ok(dst), "x = "+lit.text, 1)
+	ast := c07Verdict(text, lit.ok(dst), "x = "+lit.text, 1)
+	if ast == nil {
+		return
+	}
+	// what the stage is handed for the literal conforms to the parameter's type
+	var pipe *Pipeline
+	for _, p := range ast.Pipelines {
+		if p.Id == "TOP" {
+			pipe = p
+		}
+	}
+	if pipe == nil || len(pipe.Calls) != 1 {
+		return
+	}
+	bind := pipe.Calls[0].Bindings.Table["x"]
+	if bind == nil {
+		return
+	}
+	var buf bytes.Buffer
+	if err := bind.Exp.EncodeJSON(&buf); err != nil {
+		verifAssert(false, "C07: a literal argument encodes")
+		return
+	}
+	var dstT Type
+	for _, st := range ast.Stages {
+		if st.Id == "CONSUMER" {
+			dstT = ast.TypeTable.Get(st.InParams.List[0].Tname)
+		}
+	}
+	var alarms strings.Builder
+	verifCover("literal delivered")
+	verifAssert(dstT.IsValidJson(json.RawMessage(buf.Bytes()), &alarms, &ast.TypeTable) == nil, "C07: the value delivered for an accepted literal conforms to the declared type of the parameter (no type error at run time)")
 }
 
 // H_C07_params(kind): missing and unknown parameters, non-existent outputs,
